@@ -1105,6 +1105,17 @@ func (e *Env) evalCall(x *ast.CallExpr) sval {
 				specPanic("lastcall: unsupported result shape")
 			}
 			return sval{v: val, t: ft}
+		case "pathIsAbs", "pathClean", "pathDir", "pathBase", "pathExt", "fpIsAbs":
+			a := e.eval(x.Args[0])
+			fn := map[string]string{"pathIsAbs": "p_isabs", "pathClean": "p_clean", "pathDir": "fp_dir", "pathBase": "fp_base", "pathExt": "p_ext", "fpIsAbs": "fp_isabs"}[id.Name]
+			if id.Name == "pathIsAbs" || id.Name == "fpIsAbs" {
+				return sval{v: Leaf(mk(SBool, fn, a.v.T)), t: boolT}
+			}
+			return sval{v: Leaf(mk(SStr, fn, a.v.T)), t: types.Typ[types.String]}
+		case "pathJoin", "pathRel":
+			a, b := e.eval(x.Args[0]), e.eval(x.Args[1])
+			fn := map[string]string{"pathJoin": "fp_join", "pathRel": "fp_rel"}[id.Name]
+			return sval{v: Leaf(mk(SStr, fn, a.v.T, b.v.T)), t: types.Typ[types.String]}
 		case "isNotExist":
 			a := e.eval(x.Args[0])
 			if a.v.K != KIface {
